@@ -9,7 +9,12 @@ def is_any_dimension(factor: Expr) -> bool:
     absorbing nature.
     """
 
-    return factor in (S.Zero, S.Infinity, S.NegativeInfinity, S.NaN)
+    if factor in (S.Zero, S.Infinity, S.NegativeInfinity, S.NaN):
+        return True
+
+    # a floating-point zero (``0.0``, ``Float(0.0)``) does not compare equal to ``S.Zero``
+    return getattr(factor, "is_zero", None) is True or (isinstance(factor, (int, float)) and
+        factor == 0)
 
 
 def is_number(value: Any) -> bool:
